@@ -1,0 +1,39 @@
+//! Verification hooks for property C23 (compiled only with `--cfg libp2p_verif`).
+//!
+//! Gives the harness a constructor of [`Transport`] with a harness-defined [`Resolver`]
+//! (the fields of `Transport` are private) and re-exports the `hickory` types a mock resolver
+//! has to produce.  Nothing here changes behaviour: the wrappers only build the existing struct.
+
+use std::sync::Arc;
+
+pub use hickory_resolver::{
+    lookup::Lookup,
+    lookup_ip::LookupIp,
+    proto::{
+        op::Query,
+        rr::{
+            rdata::{A, AAAA, CNAME, TXT},
+            Name, RData, Record, RecordType,
+        },
+    },
+};
+use parking_lot::Mutex;
+
+pub use crate::{ResolveError, Resolver};
+
+/// The three limits of `do_dial`, as compiled.
+pub const LIMITS: (usize, usize, usize) = (
+    crate::MAX_DNS_LOOKUPS,
+    crate::MAX_DIAL_ATTEMPTS,
+    crate::MAX_TXT_RECORDS,
+);
+
+impl<T, R> crate::Transport<T, R> {
+    /// `Transport { inner, resolver }` with an arbitrary resolver.
+    pub fn verif_new(inner: T, resolver: R) -> Self {
+        crate::Transport {
+            inner: Arc::new(Mutex::new(inner)),
+            resolver,
+        }
+    }
+}
